@@ -59,6 +59,8 @@ impl GlobalUsageAnalysis {
     fn recurse(mut self) -> GlobalUsageAnalysis {
         let keys = self.0.keys().cloned().collect::<Vec<_>>();
         loop {
+            #[cfg(feature = "verif-hooks")]
+            rssl_text::verif::tick(18);
             let mut modified = false;
 
             for key in &keys {
